@@ -207,18 +207,18 @@ def loop_task(modules: list[str], lines: list[str], cache_enabled: bool | None):
 	return task
 
 
-def disk_task(module: str, modules: list[str], mode: str, cache_enabled: bool | None):
-	"""The same text as an on-disk module: Modules.load + transpile, or the Runner."""
+def disk_task(module: str, modules: list[str], mode: str, cache_enabled: bool | None, force: bool = True):
+	"""The same text as an on-disk module: Modules.load + transpile, or the Runner (forced, or non-forced over an output an earlier run wrote)."""
 	def task(seams: Any) -> dict[str, Any]:
 		from rogw.tranp.errors import Errors
 		from rogw.tranp.module.modules import Modules
 		from rogw.tranp.transpiler.types import ITranspiler
 		from rogw.tranp.view.error_render import ErrorRender
 		annotate_factories()
-		app = tasks.make_app(modules, force=True, cache_enabled=cache_enabled)
+		app = tasks.make_app(modules, force=force, cache_enabled=cache_enabled)
 		r: dict[str, Any] = {}
 		try:
-			if mode == 'runner':
+			if mode in ('runner', 'runner-nf'):
 				runner = app.run(_make_runner)
 				from rogw.tranp.module.types import ModulePath, ModulePaths
 				runner.module_paths = ModulePaths([ModulePath(module, 'py')])
@@ -357,6 +357,14 @@ class C07Runner:
 	def disk_step(self, proj: Project, init: Any, k: int, st: dict[str, Any]) -> None:
 		module = 'src.zz_damaged'
 		proj.sc.restore(init)
+		if st.get('mode') == 'runner-nf':
+			# an earlier, healthy version of the module was transpiled: its output (with header) exists when the damaged text arrives
+			proj.sc.write('src/zz_damaged.py', b'def zz_damaged(k: int) -> int:\n\treturn k\n', proj.sc.clock.advance(10**9))
+			rec0 = sim_process(proj.sc.root, disk_task(module, self.pool['modules'] + [module], 'runner', None), timeout=120)
+			self.processes += 1
+			if rec0['status'] != 'ok' or rec0['result']['status'] != 'ok':
+				raise HarnessError(f'prior run of the healthy module failed: {rec0}')
+			self.bump('probes', 'non-forced run over an existing output')
 		stamp = proj.sc.clock.advance(10**9)
 		for attempt in range(2 if st.get('twice') else 1):
 			# torn at an offset = a crash while the editor was saving; second attempt = same file, warm cache
@@ -367,7 +375,7 @@ class C07Runner:
 				at = int(st['bad_byte_at'] * len(data))
 				data = data[:at] + bytes([st.get('bad_byte', 0xE9)]) + data[at:]
 			proj.sc.write('src/zz_damaged.py', data, stamp)
-			rec = sim_process(proj.sc.root, disk_task(module, self.pool['modules'] + [module], st.get('mode', 'load'), None), timeout=120)
+			rec = sim_process(proj.sc.root, disk_task(module, self.pool['modules'] + [module], st.get('mode', 'load'), None, force=st.get('mode') != 'runner-nf'), timeout=120)
 			self.processes += 1
 			if rec['status'] == 'timeout':
 				self.violation('disk-load-does-not-terminate', k, {'text': st['text'][:200]})
@@ -458,6 +466,8 @@ class C07(Engine):
 			cases.append({'pool': pool, 'steps': steps})
 		cases.append({'pool': pool, 'steps': [V(base[0]), {'kind': 'disk', 'text': "def f(k: int) -> int:\n\ts = 'caf\u00e9'\n\treturn k", 'encoding': 'latin-1', 'mode': 'load', 'twice': True},
 			{'kind': 'disk', 'text': base[1], 'bad_byte_at': 0.5, 'bad_byte': 0xFF, 'mode': 'runner'}, {'kind': 'disk', 'text': base[2], 'bad_byte_at': 0.0, 'bad_byte': 0xC3, 'mode': 'load'}, V(base[0])]})
+		cases.append({'pool': pool, 'steps': [V(base[0]), {'kind': 'disk', 'text': base[1], 'bad_byte_at': 0.3, 'bad_byte': 0xFF, 'mode': 'runner-nf'}, {'kind': 'disk', 'text': 'def f(k: int) -> int:\n\treturn (k +', 'mode': 'runner-nf', 'twice': True},
+			{'kind': 'disk', 'text': "def f(k: int) -> int:\n\ts = 'caf\u00e9'\n\treturn k", 'encoding': 'latin-1', 'mode': 'runner-nf'}, {'kind': 'disk', 'text': corpus.ILL_TYPED[0], 'mode': 'runner-nf'}, V(base[0])]})
 		cases.append({'pool': pool, 'steps': [V(base[0]), {'kind': 'corrupt', 'corruption': 'deep-nesting', 'text': 'x = ' + '(' * 150 + '1' + ')' * 150}, V(base[0]), {'kind': 'corrupt', 'corruption': 'deep-nesting', 'text': 'x = f' + '(1)' * 600}]})
 		cases.append({'pool': pool, 'steps': [{'kind': 'disk', 'text': 'def f(k: int) -> int:\n\treturn (k +', 'mode': 'runner', 'twice': True}, {'kind': 'disk', 'text': 'class A:\n\tdef m(self) -> int:\n\t\treturn 1\n\ndef m2(self, k: int) -> int:\n\treturn self.k', 'mode': 'load'}, V(base[0])]})
 		return cases
@@ -483,12 +493,12 @@ class C07(Engine):
 			else:
 				c = rng.choice(kinds)
 				if rng.random() < 0.3:
-					steps.append({'kind': 'disk', 'text': rng.choice(corpus.ILL_TYPED), 'mode': rng.choice(['load', 'runner']), 'twice': rng.random() < 0.3})
+					steps.append({'kind': 'disk', 'text': rng.choice(corpus.ILL_TYPED), 'mode': rng.choice(['load', 'runner', 'runner-nf']), 'twice': rng.random() < 0.3})
 				elif rng.random() < 0.2:
-					steps.append({'kind': 'disk', 'text': rng.choice(base), 'bad_byte_at': round(rng.random(), 4), 'bad_byte': rng.choice([0xE9, 0xFF, 0xC3, 0x80, 0xF8]), 'mode': rng.choice(['load', 'runner']), 'twice': rng.random() < 0.3})
+					steps.append({'kind': 'disk', 'text': rng.choice(base), 'bad_byte_at': round(rng.random(), 4), 'bad_byte': rng.choice([0xE9, 0xFF, 0xC3, 0x80, 0xF8]), 'mode': rng.choice(['load', 'runner', 'runner-nf']), 'twice': rng.random() < 0.3})
 				else:
 					src = rng.choice(base + [pool['variants'][m][0]['src'].rstrip('\n') for m in pool['modules']])
-					steps.append({'kind': 'disk', 'corruption': c, 'text': corrupt(src, c, rng), 'mode': rng.choice(['load', 'load', 'runner']), 'twice': rng.random() < 0.3})
+					steps.append({'kind': 'disk', 'corruption': c, 'text': corrupt(src, c, rng), 'mode': rng.choice(['load', 'load', 'runner', 'runner-nf']), 'twice': rng.random() < 0.3})
 		if rng.random() < 0.08:
 			# last, because the loop is known not to survive it (see known findings): everything before it is judged normally
 			steps.append({'kind': 'corrupt', 'corruption': 'deep-nesting', 'text': deep_text(rng)})
